@@ -179,7 +179,7 @@ def blocks(tier, seed):
     cases.sort(key=lambda c: -(len(tokens(c[0])) ** max(c[1] - 1, 0)))
     return [
         Block('sequences_x_keyorders', cases, case_fn,
-              'every ordered token sequence x key order x allowed in {01,00}', nshards=min(len(cases), 256)),
+              'every ordered token sequence x key order x allowed in {01,00}', nshards=min(len(cases), 256), backstop=7200),
         Block('builder_make_multisig_lock', bcases, builder_fn, 'n<=3 through make_multisig_lock + run_auth_scripts',
               nshards=len(bcases)),
     ]
